@@ -286,6 +286,7 @@ class Run:
             wall_s=round(wall, 2),
             violations=len(self.violations),
         )
+        ev['coverage'].update(getattr(self, 'extra_coverage', {}))
         os.makedirs(os.path.join(VERIF, 'evidence'), exist_ok=True)
         with open(os.path.join(VERIF, 'evidence', '%s.json' % self.pid), 'w') as f:
             json.dump(ev, f, indent=1, default=str)
